@@ -90,10 +90,32 @@ class FuncInfo:
         return None
 
     def type_of(self, expr):
+        # variables of the comprehensions that enclose expr are bound to the element types of their iterables
+        comps = []
+        cur = expr
+        while True:
+            p = self.pm.get(id(cur))
+            if p is None:
+                break
+            if isinstance(p, (ast.ListComp, ast.SetComp, ast.GeneratorExp, ast.DictComp)):
+                comps.append((p, cur))
+            cur = p
+        saved = dict(getattr(self.env, "comp", {}))
         try:
+            from .tyinf import elem as _elem
+            for comp, child in reversed(comps):
+                for g in comp.generators:
+                    if child is g or any(x is child for x in ast.walk(g.iter)) and child is not comp:
+                        # expr sits in this generator's own iterable: its target is not bound yet
+                        if any(x is expr for x in ast.walk(g.iter)):
+                            break
+                    self.env._bind_comp(g.target, _elem(self.env.expr(g.iter)))
             return self.env.expr(expr)
         except Exception:
             return frozenset([("any",)])
+        finally:
+            if hasattr(self.env, "comp"):
+                self.env.comp = saved
 
     # ---- collection
     def _collect(self):
